@@ -34,6 +34,18 @@ class Tracker:
         self.flag_edges = flag_edges or {}   # (a, b) -> flag name
         self.flag_sites = flag_sites or {}   # block -> flag name (set when the call at block returns normally)
         self.sw = {e["block"]: e for e in bi.switches}
+        # boolean locals all of whose definitions are constants (`matches!(..)`, `let done = ..;`) are
+        # tracked too, so that a test on the tracked place routed through such a local stays path-sensitive
+        self.bool_locals = []
+        for e, defs in bi.bool_phi_switches:
+            L = e["subject"][1]
+            if L not in self.bool_locals:
+                self.bool_locals.append(L)
+        for L in self.bool_locals:
+            n = "_bool_local_%d" % L
+            self.names.append(n)
+            self.place[n] = ("phi", L)
+            self.kind[n] = "bool"
 
     def value_of_rv(self, name, rv):
         """Abstract value written by rvalue `rv` to tracked place `name` (TOP if unknown)."""
@@ -62,7 +74,7 @@ class Tracker:
         body = self.body
         bi = self.bi
         res = Run()
-        start = (0, tuple(entry_values[n] for n in self.names), frozenset())
+        start = (0, tuple(entry_values.get(n, TOP) for n in self.names), frozenset())
         seen = {start}
         dq = deque([start])
         while dq:
@@ -71,7 +83,15 @@ class Tracker:
             vals = list(vals)
             # statements
             for st in body.stmts(b):
-                if st["k"] == "assign" and st["lhs"]["p"]:
+                if st["k"] == "assign" and not st["lhs"]["p"] and st["lhs"]["l"] in self.bool_locals:
+                    n = "_bool_local_%d" % st["lhs"]["l"]
+                    i = self.names.index(n)
+                    rv = st["rv"]
+                    if rv["k"] == "use" and "c" in rv["op"] and rv["op"]["c"].get("v") is not None:
+                        vals[i] = bool(int(rv["op"]["c"]["v"]))
+                    else:
+                        vals[i] = TOP
+                elif st["k"] == "assign" and st["lhs"]["p"]:
                     pt = bi.T.of_place(st["lhs"])
                     for i, n in enumerate(self.names):
                         if pt == self.place[n]:
